@@ -128,6 +128,22 @@ Definition csv_model (t : rtable) (start : nat) : list (list bytes) * list wline
   let sm := csv_summary_row (start + nh + length (rt_rows t)) (rt_sumlabel t) (rt_sums t) in
   (hdr ++ map fst data ++ [fst sm], flat_map snd data ++ snd sm).
 
+(** Tables.ToCSV (builder.go): [row] starts at 1; before every table but the
+    first a blank record (printTables' hdr("")), then one record per table-key
+    header line (the strings printTables hands to hdr: input here), each
+    advancing [row]; then the table rendered with startRow = [row], which
+    advances [row] by the number of records the table wrote. *)
+Definition csv_tables_step (st : nat * list (list bytes) * list wline * bool) (x : list bytes * rtable)
+  : nat * list (list bytes) * list wline * bool :=
+  let '(row, recs, ws, first) := st in
+  let hdrs := (if first then [] else [[[]]]) ++ map (fun h => [h]) (fst x) in
+  let row1 := row + length hdrs in
+  let tw := csv_model (snd x) row1 in
+  (row1 + length (fst tw), recs ++ hdrs ++ fst tw, ws ++ snd tw, false).
+Definition csv_tables_model (tabs : list (list bytes * rtable)) : list (list bytes) * list wline :=
+  let st := fold_left csv_tables_step tabs (1, [], [], true) in
+  (snd (fst (fst st)), snd (fst st)).
+
 (** ** text *)
 Definition txt_center : nat := 3.
 Definition txt_start (exp : nat) : nat :=
@@ -172,13 +188,14 @@ Definition bar2 : bytes := [sp; xe2; x94; x82].       (* " │"  *)
 
 Definition cell1 (v : bytes) (a : align) : list op := [OSpan 1 v None a].
 
+(** one header line: the cells of one level of the key header, then the right border *)
+Definition text_header_row (redge : nat) (nodes : list hnode) : list op :=
+  ORow :: flat_map (fun n => [OCol (txt_start (h_start n));
+                              OSpan (txt_start (h_start n + h_len n) - txt_start (h_start n))
+                                    (h_value n) (Some bar3) ACenter]) nodes
+  ++ [OCol redge; OSpan 1 [] (Some bar2) ALeft].
 Definition text_header_ops (nf : nat) (cols : list key) (redge : nat) : list op :=
-  flat_map (fun nodes =>
-      ORow :: flat_map (fun n => [OCol (txt_start (h_start n));
-                                  OSpan (txt_start (h_start n + h_len n) - txt_start (h_start n))
-                                        (h_value n) (Some bar3) ACenter]) nodes
-      ++ [OCol redge; OSpan 1 [] (Some bar2) ALeft])
-    (key_header nf cols).
+  flat_map (text_header_row redge) (key_header nf cols).
 
 Definition text_unit_seg (unit : bytes) (exp : nat) : list op :=
   [OCol (txt_start exp); OSpan txt_center unit (Some bar3) ACenter]
